@@ -94,9 +94,9 @@ def stack_cases():
     its own route MTU, so fragments made at n1 may be fragmented again at n2. '''
     return st.fixed_dictionaries({
         'kind': st.just('stack'),
-        'hops': st.lists(st.sampled_from(['tcpcl', 'udpcl']), min_size=2, max_size=2),
+        'hops': st.lists(st.sampled_from(['tcpcl', 'udpcl', 'btpu']), min_size=2, max_size=2),
         'rmtu': st.lists(st.sampled_from([None, 120, 150, 200, 400]), min_size=2, max_size=2),
-        'umtu': st.sampled_from([None, 100, 300]),
+        'umtu': st.sampled_from([None, 100, 300]), 'emtu': st.sampled_from([None, 100]),
         'sizes': st.lists(st.sampled_from([8, 200, 300, 500, 1000]), min_size=1, max_size=3),
         'flags': st.sampled_from([0, 0, 0x40, 0x20, 0x080000]),
         'pcrc': st.sampled_from([1, 2]), 'ycrc': st.sampled_from([0, 1, 2]),
@@ -313,7 +313,7 @@ def execute_stack(case):
         dict(routes=[('^dtn://n1/', 1, hop12, m12), ('^dtn://n3/', 3, hop23, m23)],
              rx_routes=[('^dtn://n2/', 'deliver'), ('^dtn://n[13]/', 'forward')]),
         dict(routes=[('^dtn://n[12]/', 2, hop23, m23)], rx_routes=[('^dtn://n3/', 'deliver')]),
-    ], udpcl_mtu=case.get('umtu'))
+    ], udpcl_mtu=case.get('umtu'), btpu_mtu=case.get('emtu'))
     try:
         sent = []
         for seq, size in enumerate(case['sizes'], 1):
@@ -330,7 +330,7 @@ def execute_stack(case):
         world.advance(1000)
         # was anything fragmented on the way?  (from the wire)
         frag_hops = set()
-        for xfer in world.transfers() + world.udp_bundles():
+        for xfer in world.transfers() + world.udp_bundles() + world.btpu_bundles():
             if not xfer['complete']:
                 continue
             try:
